@@ -15,3 +15,8 @@ Theorem C05_invariant_holds_on_admitted_traces :
 Proof. exact admitted_everywhere. Qed.
 Print Assumptions C05_invariant_holds_on_admitted_traces.
 
+Theorem C05_refresh_republishes_term_token :
+  forall tr, admits base0 tr = true -> at_every_position tr (fun b te => ~ In 105 (mon_C01 b te) /\ ~ In 503 (mon_C05 b te)).
+Proof. exact refresh_legit_thm. Qed.
+Print Assumptions C05_refresh_republishes_term_token.
+
